@@ -123,9 +123,11 @@ def outcome_incremental(family, call, reg_order):
         fd = None
         if family.get('decl') in ('signature', 'signature-reregistered'):
             fd = resfam.build_def_declared(d)
-        elif family.get('decl') in ('shared-callable', 'shared-payload'):
+        elif family.get('decl') in ('shared-callable', 'shared-payload',
+                                    'shared-callable-flags'):
             fd = resfam.build_def_shared(
-                d, shared, tagged=family['decl'] == 'shared-callable')
+                d, shared, tagged=family['decl'] != 'shared-payload',
+                flags=family['decl'] == 'shared-callable-flags')
         if fd is None:
             fd = resfam.build_def(d)
         by_layer[d['layer']].register_function(
@@ -435,6 +437,25 @@ FIXED = [
                 {'name': 'x', 'type': 'B'}, {'name': 'y', 'type': 'B'}]}]},
      'call': {'args': [{'o': 'b'}, {'o': 'b'}]}},
 ]
+# several overloads of one layer that all accept a call without arguments
+_ZERO = {
+    'none': [], 'default': [{'name': 'p0', 'type': 'obj', 'nullable': True,
+                             'default': 1}],
+    'hidden': [{'name': 'h', 'type': 'obj', 'hidden': True}],
+    'two-defaults': [{'name': 'p0', 'type': 'int', 'nullable': False,
+                      'default': 0},
+                     {'name': 'p1', 'type': 'String', 'nullable': True,
+                      'default': None}]}
+for _a, _b in (('none', 'default'), ('none', 'none'), ('default', 'hidden'),
+               ('two-defaults', 'none'), ('hidden', 'hidden')):
+    for _decl in ('assembled', 'signature'):
+        FIXED.append({'kind': 'family', 'shape': 'zero-arg-tie', 'family': {
+            'layers': 1, 'decl': _decl, 'defs': [
+                {'tag': 't0', 'layer': 0, 'kind': 'function',
+                 'params': [dict(p) for p in _ZERO[_a]]},
+                {'tag': 't1', 'layer': 0, 'kind': 'function',
+                 'params': [dict(p) for p in _ZERO[_b]]}]},
+            'call': {'args': []}, 'split': 0})
 
 
 def run(run):
@@ -444,7 +465,7 @@ def run(run):
     for c in FIXED:
         check_family(run, c)
     k = 16
-    n = (16000 if full else 1600) // k
+    n = (16000 if full else 4800) // k
     run.shards(_shard, [(n, i) for i in range(k)])
     if full:
         import hypothesis
